@@ -82,10 +82,10 @@ def _config(draw):
     for _ in range(draw(st.integers(0, 2))):
         i = draw(st.integers(0, nb - 1))
         parts.append({"part": "s2p", "b": i, "mu": draw(st.sampled_from([0.0, 0.3, 0.8])), "r": draw(gen.f(0.05, 0.5)),
-                      "e_N": draw(gen.f(0, 1))})
+                      "e_N": draw(gen.f(0, 1)), "e_F": draw(st.sampled_from([0.0, 0.3, 0.8]))})
     if nb >= 2 and draw(st.booleans()):
         parts.append({"part": "s2s", "a": 0, "b": 1, "mu": draw(st.sampled_from([0.0, 0.5])), "r1": 0.3, "r2": 0.4,
-                      "e_N": draw(gen.f(0, 1))})
+                      "e_N": draw(gen.f(0, 1)), "e_F": draw(st.sampled_from([0.0, 0.3, 0.8]))})
     if draw(st.integers(0, 3)) == 0:
         rs = draw(rodbuild.rod_spec(max_nel=2))
         parts.append({"part": "rod", "rod": rs, "line_load": draw(st.booleans()), "clamp": draw(st.booleans())})
@@ -149,9 +149,9 @@ def build_config(spec):
             system.add(j)
             system.add(sysbuild.make_actuator(dict(p["actuator"], name=f"actuator{k}"), j))
         elif kind == "s2p":
-            system.add(Sphere2Plane(ground, bodies[p["b"]], mu=p["mu"], r=p["r"], e_N=p["e_N"], name=f"s2p{k}"))
+            system.add(Sphere2Plane(ground, bodies[p["b"]], mu=p["mu"], r=p["r"], e_N=p["e_N"], e_F=p.get("e_F", 0.0), name=f"s2p{k}"))
         elif kind == "s2s":
-            system.add(Sphere2Sphere(bodies[p["a"]], bodies[p["b"]], p["r1"], p["r2"], p["mu"], e_N=p["e_N"], name=f"s2s{k}"))
+            system.add(Sphere2Sphere(bodies[p["a"]], bodies[p["b"]], p["r1"], p["r2"], p["mu"], e_N=p["e_N"], e_F=p.get("e_F", 0.0), name=f"s2s{k}"))
         elif kind == "rod":
             rod, _ = rodbuild.make_rod(p["rod"], name=f"rod{k}")
             system.add(rod)
@@ -260,8 +260,14 @@ def reference_table(system, t, q, u, ud, la):
         lambda c: c.Wla_N_q(t, qs(c), la_N[c.la_NDOF]), hn)
     vec("xi_N", lambda: S.xi_N(t, t, q, q, 0.5 * u, u), S.nla_N, "la_NDOF",
         lambda c: c.g_N_dot(t, qs(c), us(c)) + c.e_N * c.g_N_dot(t, qs(c), 0.5 * us(c)), hn)
+    # restituted velocities with distinct pre- and post-impact states (Rattle calls them this way)
+    tp, qp, up = t - 0.05, q + 0.07 * np.cos(np.arange(nq) + 1.0), 0.5 * u[::-1] - 0.2
+    vec("xi_N[pre!=post]", lambda: S.xi_N(tp, t, qp, q, up, u), S.nla_N, "la_NDOF",
+        lambda c: c.g_N_dot(t, qs(c), us(c)) + c.e_N * c.g_N_dot(tp, qp[c.qDOF], up[c.uDOF]), hn)
     hf = lambda c: _has(c, "gamma_F")
     vec("gamma_F", lambda: S.gamma_F(t, q, u), S.nla_F, "la_FDOF", lambda c: c.gamma_F(t, qs(c), us(c)), hf)
+    vec("xi_F[pre!=post]", lambda: S.xi_F(tp, t, qp, q, up, u), S.nla_F, "la_FDOF",
+        lambda c: c.gamma_F(t, qs(c), us(c)) + c.e_F * c.gamma_F(tp, qp[c.qDOF], up[c.uDOF]), hf)
     mat("gamma_F_q", lambda: S.gamma_F_q(t, q, u), (S.nla_F, nq), "la_FDOF", "qDOF", lambda c: c.gamma_F_q(t, qs(c), us(c)), hf)
     mat("W_F", lambda: S.W_F(t, q), (nu, S.nla_F), "uDOF", "la_FDOF", lambda c: c.W_F(t, qs(c)), hf)
     vec("gamma_F_dot", lambda: S.gamma_F_dot(t, q, u, ud), S.nla_F, "la_FDOF",
